@@ -64,3 +64,19 @@ Example C03_nonvacuous :
   map f_to_bits (concat (fst (mat_fun N step [[q 1%Z 2%Z; q 1%Z 4%Z]; [q 3%Z 4%Z; q 1%Z 8%Z]] [[[q 1%Z 1%Z; q 2%Z 1%Z]; [q 3%Z 1%Z; q 4%Z 1%Z]]; [[q 0%Z 1%Z; q 0%Z 1%Z]; [q 0%Z 1%Z; q 0%Z 1%Z]]])))
   = map f_to_bits (fst (row_fun N step [q 1%Z 2%Z; q 1%Z 4%Z; q 3%Z 4%Z; q 1%Z 8%Z] [[q 1%Z 1%Z; q 2%Z 1%Z; q 3%Z 1%Z; q 4%Z 1%Z]; [q 0%Z 1%Z; q 0%Z 1%Z; q 0%Z 1%Z; q 0%Z 1%Z]])).
 Proof. vm_compute. reflexivity. Qed.
+
+(* "starting from fresh optimizer state" at every attachment: an optimizer value that was attached with any
+   state, stepped through ANY history of updates (any slots, step numbers, values, gradients) and is attached
+   again gets exactly the state a fresh attachment gives - validate reads none of the statistics held, and
+   no step changes a hyper-parameter *)
+Theorem C03_reattached_optimizer_is_fresh :
+  forall (N : Num) (o o' : optimizer N) (v1 v2 : slots N),
+    stepped (opt_validate o v1) o' -> opt_validate o' v2 = opt_validate o v2.
+Proof. exact reattach_is_fresh. Qed.
+Print Assumptions C03_reattached_optimizer_is_fresh.
+
+Theorem C03_step_keeps_hyperparameters :
+  forall (N : Num) (o o' : optimizer N) l f b s w g w' g',
+    opt_update o l f b s w g = Ok (o', w', g') -> hyper o' = hyper o.
+Proof. exact update_keeps_hyper. Qed.
+Print Assumptions C03_step_keeps_hyperparameters.
